@@ -48,8 +48,9 @@ structure WireMsg where
   echo : Option Nat             -- inner Echo option (of the plaintext)
 deriving Repr, DecidableEq
 
-/-- outcome of `unprotect`: one of the outcomes of the request/response models, or the
-`ValueError` of `CodeStyle.from_request` -/
+/-- outcome of `unprotect`: one of the outcomes of the request/response models, or the refusal of a request-side
+outer code other than FETCH / POST (`ProtectionInvalid` since fix 51b9257, the `ValueError` of
+`CodeStyle.from_request` before) -/
 inductive WOut
   | plain (o : Outcome)
   | codeRefused
@@ -58,6 +59,10 @@ deriving Repr, DecidableEq
 /-- `unprotect`, in the order of the Python statements. -/
 def unprotectWire (c : Ctx) (m : WireMsg) : Ctx × WOut :=
   let isResp := codeIsResponse m.code
+  -- 1247-1255 (fix 51b9257): the outer code of a request is neither POST nor FETCH: `ProtectionInvalid`, before
+  -- anything else is looked at.  (The other new test there, "request identifiers given iff response code", is
+  -- about the caller's argument; callers hand identifiers in exactly for response codes.)
+  if !isResp && !codeStyleOk m.code then (c, .codeRefused) else
   match m.piv with
   | none =>
     -- 1277-1283: no partial IV
@@ -71,8 +76,7 @@ def unprotectWire (c : Ctx) (m : WireMsg) : Ctx × WOut :=
       | some w => !w.isValid n)
     -- 1296-1298
     if replayErr && c.echoRecovery.isNone then (c, .plain .replayError) else
-    -- 1300-1305: RequestIdentifiers → CodeStyle.from_request
-    if !isResp && !codeStyleOk m.code then (c, .codeRefused) else
+    -- 1300-1305: RequestIdentifiers → CodeStyle.from_request (cannot raise any more: the code was tested above)
     -- 1375: decryption
     if !(if isResp then m.asResponse else m.asRequest) then (c, .plain .protectionInvalid) else
     -- 1384-1385: strike out
